@@ -158,7 +158,9 @@ func unionBoxes(boxes []rect.Rect) rect.Rect {
 	return r
 }
 
-var queryNames = []string{".notdef", "A", "B", "AE", "a", "b", "space", "zero", "one", "Z", "z", "aa", "a.alt", "f_i", "exclam", "uni0041", "x", "Aacute", "germandbls", "at"}
+// (with names that sort before ".notdef" bytewise: the list starts with .notdef because of its key, not its spelling)
+var queryNames = []string{".notdef", "A", "B", "AE", "a", "b", "space", "zero", "one", "Z", "z", "aa", "a.alt", "f_i", "exclam", "uni0041", "x", "Aacute", "germandbls", "at",
+	"+plus", ".cap", "-", ".a", "$", ".", ".notde", ".notdef2", "0zero"}
 
 func randEncoding(r *rng, present []string) []string {
 	if r.chance(1, 5) {
@@ -191,8 +193,13 @@ func suiteQuery(o *suiteOut, r *rng, tier string, n int) {
 	for i := 0; i < nr; i++ {
 		// ---- a Type 1 font with integer coordinates
 		f := newTestFont()
-		sx, sy := pick(r, []float64{0.001, 0.001, 0.002, 0.0005, 1, -0.001}), pick(r, []float64{0.001, 0.001, 0.002, 1})
-		f.FontInfo.FontMatrix = [6]float64{sx, 0, 0, sy, float64(r.rangeInt(-2, 2)), float64(r.rangeInt(-2, 2))}
+		// scales next to the customary 0.001 and tiny translations count: a box in PDF units is the exact image
+		sx, sy := pick(r, []float64{0.001, 0.001, 0.002, 0.0005, 1, -0.001, 0.0009995, 0.0010004, 0.001 + 9e-7, 0.000999}), pick(r, []float64{0.001, 0.001, 0.002, 1, 0.0009996, 0.0010009})
+		tx, ty := float64(r.rangeInt(-2, 2)), float64(r.rangeInt(-2, 2))
+		if r.chance(1, 5) {
+			tx, ty = pick(r, []float64{9e-7, -9e-7, 5e-7, 0.0005}), pick(r, []float64{9e-7, -8e-7, 0})
+		}
+		f.FontInfo.FontMatrix = [6]float64{sx, 0, 0, sy, tx, ty}
 		var present []string
 		for _, nm := range queryNames {
 			if r.chance(2, 5) {
